@@ -102,6 +102,7 @@ def build(verbose=False) -> tuple[bool, str]:
         reflect.write_basisforms()
         reflect.write_eigenvalues()
         reflect.write_helpers()
+        reflect.write_select()
         bad = scan_forbidden()
         if bad:
             return False, "forbidden constructs: " + "; ".join(bad)
